@@ -1,6 +1,7 @@
 import TomlVerif.Model.Doc
 import TomlVerif.Driver.C12
 import TomlVerif.Driver.C11
+import TomlVerif.Spec.OrderedPlain
 namespace TomlVerif.Driver
 open TomlVerif TomlVerif.Model
 
@@ -26,14 +27,8 @@ partial def canonTbl : Tbl → String
     s!"T{b01 i}{b01 d}p{ps}" ++ "{" ++ ";".intercalate (items.map fun (k, v) => hexOut k ++ "=" ++ canonItem v) ++ "}"
 end
 
-def bytesLt : Bytes → Bytes → Bool
-  | [], [] => false
-  | [], _ :: _ => true
-  | _ :: _, [] => false
-  | a :: r, b :: s => if a < b then true else if b < a then false else bytesLt r s
-
-def sortPairs (l : List (Bytes × String)) : List (Bytes × String) :=
-  (l.toArray.qsort fun a b => bytesLt a.1 b.1).toList
+/-- the verified insertion sort of `Spec/OrderedPlain.lean` (Props/C18: permutation-invariant on distinct keys) -/
+def sortPairs (l : List (Bytes × String)) : List (Bytes × String) := TomlVerif.Spec.OrderedPlain.sortByKey l
 
 /-- the plain data (what `toml::Table` holds), tables sorted by key bytes -/
 partial def plainVal : Val → String
